@@ -42,19 +42,10 @@ func (vc *VC) specInfoFor(sf *SpecFunc) *specInfo {
 	if si, ok := tab.infos[sf.Name]; ok {
 		return si
 	}
+	vc.prog.prepareSpecs()
 	si := &specInfo{sf: sf, deps: map[string]bool{}}
 	tab.infos[sf.Name] = si
-	var pkg *types.Package
-	if sf.Pkg != "" {
-		for _, p := range vc.prog.allPkgs {
-			if p.Path() == sf.Pkg {
-				pkg = p
-			}
-		}
-	}
-	if pkg == nil && vc.fn != nil {
-		pkg = vc.fn.Pkg.Pkg
-	}
+	pkg := vc.prog.specPkg(sf, vc)
 	for _, p := range sf.Params {
 		si.ptypes = append(si.ptypes, vc.prog.resolveType(p.Type, pkg))
 	}
@@ -63,15 +54,86 @@ func (vc *VC) specInfoFor(sf *SpecFunc) *specInfo {
 	if sf.Opaque {
 		return si
 	}
-	// fixpoint over the set of components read
-	for iter := 0; iter < 8; iter++ {
-		before := len(si.comps)
-		vc.compileSpec(si, pkg)
-		if len(si.comps) == before && iter > 0 {
+	if !vc.preparing {
+		si.comps = append([]string{}, vc.prog.specComps[sf.Name]...)
+		for _, c := range si.comps {
+			vc.regCompFull(c, vc.prog.specCompSorts[c])
+		}
+	}
+	vc.compileSpec(si, pkg)
+	return si
+}
+
+func (P *Program) specPkg(sf *SpecFunc, vc *VC) *types.Package {
+	for _, p := range P.allPkgs {
+		if p.Path() == sf.Pkg {
+			return p
+		}
+	}
+	if vc != nil && vc.fn != nil {
+		return vc.fn.Pkg.Pkg
+	}
+	if vc != nil && vc.lemmaPkg != nil {
+		return vc.lemmaPkg
+	}
+	return nil
+}
+
+// prepareSpecs computes, once per program, the set of heap components every
+// recursive spec function reads (transitively), by iterating compilation in a
+// scratch context until the sets are stable.
+func (P *Program) prepareSpecs() {
+	if P.specComps != nil {
+		return
+	}
+	P.specComps = map[string][]string{}
+	P.specCompSorts = map[string]string{}
+	var names []string
+	for n, sf := range P.contracts.Specs {
+		if !sf.Opaque && sf.Body != nil && P.isRecursiveSpec(n) {
+			names = append(names, n)
+		}
+	}
+	sort.Strings(names)
+	for iter := 0; iter < 10; iter++ {
+		changed := false
+		for _, n := range names {
+			sf := P.contracts.Specs[n]
+			vc := &VC{prog: P, declSet: map[string]bool{}, compSorts: map[string]string{}, touched: map[string]bool{},
+				strLits: map[string]string{}, params: map[string]Val{}, counters: map[string]int{}, usedExt: map[string]bool{}, usedSpecs: map[string]bool{}}
+			vc.curReach = "true"
+			vc.preparing = true
+			vc.lemmaPkg = P.specPkg(sf, nil)
+			si := vc.specInfoFor(sf)
+			set := map[string]bool{}
+			for _, c := range P.specComps[n] {
+				set[c] = true
+			}
+			before := len(set)
+			for _, c := range si.comps {
+				set[c] = true
+				P.specCompSorts[c] = vc.compSorts[c]
+			}
+			// callee components
+			for d := range si.deps {
+				for _, c := range P.specComps[d] {
+					set[c] = true
+				}
+			}
+			if len(set) != before {
+				changed = true
+				var l []string
+				for c := range set {
+					l = append(l, c)
+				}
+				sort.Strings(l)
+				P.specComps[n] = l
+			}
+		}
+		if !changed {
 			break
 		}
 	}
-	return si
 }
 
 func (vc *VC) compileSpec(si *specInfo, pkg *types.Package) {
@@ -96,11 +158,13 @@ func (vc *VC) compileSpec(si *specInfo, pkg *types.Package) {
 	vc.specRecorder = save
 	vc.curSpec = saveCur
 	si.body = body.S
-	si.comps = si.comps[:0]
-	for c := range rec {
-		si.comps = append(si.comps, c)
+	if vc.preparing {
+		si.comps = si.comps[:0]
+		for c := range rec {
+			si.comps = append(si.comps, c)
+		}
+		sort.Strings(si.comps)
 	}
-	sort.Strings(si.comps)
 }
 
 // specCalls collects the spec functions called in an expression.
@@ -213,18 +277,21 @@ func (vc *VC) callSpec(sf *SpecFunc, args []Val, st *State) Val {
 		return r
 	}
 	si := vc.specInfoFor(sf)
+	if vc.preparing {
+		if vc.curSpec != nil {
+			vc.curSpec.deps[sf.Name] = true
+		}
+		return Val{K: kindOf(si.rtype), T: si.rtype, S: "spec_placeholder"}
+	}
 	if vc.curSpec != nil {
 		vc.curSpec.deps[sf.Name] = true
-		// make sure callee components are recorded in the caller
-		for _, c := range si.comps {
-			vc.heap(st, c)
-		}
 	}
 	vc.usedSpecs[sf.Name] = true
 	var as []string
 	for _, c := range si.comps {
 		as = append(as, vc.heap(st, c))
 	}
+	vc.specEntryFrame(sf, si, st)
 	for _, a := range args {
 		as = append(as, a.S)
 	}
@@ -348,4 +415,117 @@ func (vc *VC) specDecls() string {
 		fmt.Fprintf(&b, "(define-funs-rec (%s) (%s))\n", strings.Join(heads, " "), strings.Join(bodies, " "))
 	}
 	return b.String()
+}
+
+// specFrame emits, for every recursive spec function that reads a component
+// whose new version agrees with the old one on all addresses allocated before
+// `bound`, the fact that its value on such pre-existing arguments is
+// unchanged. Justified by heap closure (everything reachable from an object
+// allocated before `bound` was itself allocated before `bound`); listed as a
+// meta-assumption (A4) in the evidence.
+func (vc *VC) specFrame(oldHeap func(comp string) string, st *State, changed map[string]bool, bound string) {
+	if len(changed) == 0 {
+		return
+	}
+	var names []string
+	for n := range vc.prog.contracts.Specs {
+		if vc.prog.isRecursiveSpec(n) {
+			names = append(names, n)
+		}
+	}
+	sort.Strings(names)
+	for _, n := range names {
+		sf := vc.prog.contracts.Specs[n]
+		if sf.Opaque || sf.Body == nil {
+			continue
+		}
+		si := vc.specInfoFor(sf)
+		touches := false
+		ok := true
+		for _, c := range si.comps {
+			if changed[c] {
+				touches = true
+			} else if vc.heap(st, c) != oldHeap(c) {
+				ok = false // changed in a way we know nothing about
+			}
+		}
+		if !touches || !ok {
+			continue
+		}
+		vc.usedSpecs[n] = true
+		vc.usedExt["frame axiom for recursive spec predicates (heap closure, A4)"] = true
+		var binders, guards, newArgs, oldArgs []string
+		for _, c := range si.comps {
+			newArgs = append(newArgs, vc.heap(st, c))
+			oldArgs = append(oldArgs, oldHeap(c))
+		}
+		for i, p := range sf.Params {
+			v := "|f:" + p.Name + "|"
+			srt := sortOfType(si.ptypes[i])
+			binders = append(binders, "("+v+" "+srt+")")
+			switch kindOf(si.ptypes[i]) {
+			case KPtr, KMap:
+				guards = append(guards, sx("<", sx("rootOf", v), bound))
+			case KSlice:
+				guards = append(guards, sx("<", sx("rootOf", sx("sarr", v)), bound))
+			}
+			newArgs = append(newArgs, v)
+			oldArgs = append(oldArgs, v)
+		}
+		app1 := sx("spec_"+n, newArgs...)
+		app0 := sx("spec_"+n, oldArgs...)
+		vc.local(fmt.Sprintf("(forall (%s) (! (=> %s (= %s %s)) :pattern (%s)))", strings.Join(binders, " "), and(guards...), app1, app0, app1))
+	}
+}
+
+// specEntryFrame: inside a function that cannot modify pre-existing cells of
+// the components a recursive spec predicate reads (its modifies clause does
+// not cover them, so every write is to fresh memory, which the frame:
+// obligations check), the predicate's value on pre-existing arguments is the
+// same in every state as in the entry state.
+func (vc *VC) specEntryFrame(sf *SpecFunc, si *specInfo, st *State) {
+	if vc.fn == nil || vc.fc == nil || vc.fc.Modifies == nil || vc.curSpec != nil || st.alloc == "|p:alloc|" {
+		return
+	}
+	differs := false
+	var key []string
+	for _, c := range si.comps {
+		h := vc.heap(st, c)
+		key = append(key, h)
+		if h != vc.entryHeap(c) {
+			differs = true
+			if foot, whole := vc.footprint(c, "a!"); whole || foot != "false" {
+				return
+			}
+		}
+	}
+	if !differs {
+		return
+	}
+	k := sf.Name + "(" + strings.Join(key, ",") + ")"
+	if vc.declSet["specframe:"+k] {
+		return
+	}
+	vc.declSet["specframe:"+k] = true
+	vc.usedExt["frame axiom for recursive spec predicates (heap closure, A4)"] = true
+	var binders, guards, newArgs, oldArgs []string
+	for _, c := range si.comps {
+		newArgs = append(newArgs, vc.heap(st, c))
+		oldArgs = append(oldArgs, vc.entryHeap(c))
+	}
+	for i, p := range sf.Params {
+		v := "|f:" + p.Name + "|"
+		binders = append(binders, "("+v+" "+sortOfType(si.ptypes[i])+")")
+		switch kindOf(si.ptypes[i]) {
+		case KPtr, KMap:
+			guards = append(guards, sx("<", sx("rootOf", v), "|alloc@0|"))
+		case KSlice:
+			guards = append(guards, sx("<", sx("rootOf", sx("sarr", v)), "|alloc@0|"))
+		}
+		newArgs = append(newArgs, v)
+		oldArgs = append(oldArgs, v)
+	}
+	app1 := sx("spec_"+sf.Name, newArgs...)
+	app0 := sx("spec_"+sf.Name, oldArgs...)
+	vc.global(fmt.Sprintf("(forall (%s) (! (=> %s (= %s %s)) :pattern (%s)))", strings.Join(binders, " "), and(guards...), app1, app0, app1))
 }
